@@ -42,7 +42,7 @@ def run(ck):
     for i in range(nfits):
         task = ['reg', 'class', 'reg2'][i % 3]
         L = int(rng.integers(10, 40))
-        n = int(rng.integers(L + 1, min(16 * L, 420))) if i % 8 else int(rng.integers(6, L + 1))   # every 8th: single leaf
+        n = int(rng.integers(L + 1, min(16 * L, 420))) if i % 8 else int(rng.integers(min(6, L), L + 1))   # every 8th: single leaf
         d = int(rng.integers(2, 5))
         refill = int(rng.choice([1, 2, 3, 5, 8, 15, 40, 1500]))
         nv = int(rng.choice([0, 1, 3, 10, 40, 150]))
@@ -56,7 +56,7 @@ def run(ck):
                   'fixed_vector'][i % 9]
         tree_iters = [1, 2][(i // 9) % 2] if method == 'random_global_agop' else 0
         if tree_iters and (i // 9) % 3 == 2:
-            n = int(rng.integers(6, L + 1))                     # single-leaf tree that is rebuilt
+            n = int(rng.integers(min(6, L), L + 1))             # single-leaf tree that is rebuilt
             refill = int(rng.choice([40, 1500])); nv = 3        # (a refill would apply if the leaf were not the whole tree)
         if tree_iters:
             nv = max(nv, 3)                                     # every build is scored on the caller's validation set
